@@ -40,6 +40,10 @@ def programs(tier, rng):
         # adversarial spelling: the program's own names are the first names the generator hands out
         c = scopegen.Conc(p, variant=0, names={'x': 'A', 'y': 'B'})
         out.append(('%s-vAB' % pid, c.src, 'scope'))
+    # every two-name program once more with adversarial spelling and the second name mentioned more often than the first
+    for k, p in enumerate(p22):
+        c = scopegen.Conc(p, variant=0, names={'x': 'A', 'y': 'B'}, heavy=('y',))
+        out.append(('scope22-%d-vABh' % k, c.src, 'scope'))
     # suite cases (the block in its context), under whatever safe options are drawn
     c1, _ = tlc.cached_export('Suite', 'Export_Suite1.cfg')
     c2, _ = tlc.cached_export('Suite', 'Export_Suite2.cfg', timeout=3600)
